@@ -65,6 +65,24 @@ def comment_edit(rng, text):
     return offs[a], offs[b], rng.choice([" edited", "x", "", " ä\U0001F600", " new doc "]) or "y"
 
 
+def blank_replace(rng, text):
+    """replaces part of a run of white space (possibly the line break that ends a `//` comment and what follows it) by other
+    white space: joins lines, swallows the code behind a comment, changes indentation"""
+    runs = [m for m in re.finditer(r"[ \t\r\n]+", text)]
+    if not runs:
+        return None
+    m = rng.choice(runs)
+    a = rng.randrange(m.start(), m.end())
+    b = rng.randrange(a + 1, m.end() + 1)
+    # LSP positions cannot address the middle of a CR LF pair
+    if 0 < a < len(text) and text[a - 1] == "\r" and text[a] == "\n":
+        a -= 1
+    if 0 < b < len(text) and text[b - 1] == "\r" and text[b] == "\n":
+        b += 1
+    offs = editgen.byte_offsets(text)
+    return offs[a], offs[b], rng.choice([" ", "  ", "\t", " \t ", "\n", "\n\n", " \n"])
+
+
 def append_decl(rng, text):
     offs = editgen.byte_offsets(text)
     return offs[len(text)], offs[len(text)], rng.choice(["\n// appended\nproc extra_p() { }\n", "\ntype extra_t = int;\n", "\n// tail\n"])
@@ -82,8 +100,9 @@ def gen_histories(rng, n):
         for _ in range(rng.choice([1, 1, 2, 3])):
             chs = []
             for _ in range(rng.choice([1, 1, 2])):
-                kind = rng.choice(["comment", "comment", "neutral", "append"])
-                e = comment_edit(rng, cur) if kind == "comment" else c03hist.neutral(rng, cur) if kind == "neutral" else append_decl(rng, cur)
+                kind = rng.choice(["comment", "comment", "neutral", "append", "blank", "blank"])
+                e = (comment_edit(rng, cur) if kind == "comment" else c03hist.neutral(rng, cur) if kind == "neutral"
+                     else blank_replace(rng, cur) if kind == "blank" else append_decl(rng, cur))
                 if e is None:
                     continue
                 shape.append(kind)
@@ -158,6 +177,14 @@ def run_batch(exe, batch, methods, seed, tag, options=None):
                 ch, cur = lsp_changes(cur, chs)
                 s.change(ua, ch, version=ver)
                 ver += 1
+            # document B is opened with the text the SERVER holds for A (C08 is about their equality; this stage is about the
+            # features), so an edit the two sides read differently cannot masquerade as a feature defect
+            try:
+                r = s.request("$/verif/text", {"uri": ua}, timeout=20.0)
+                if isinstance(r, dict) and isinstance(r.get("result"), str):
+                    cur = r["result"]
+            except Exception:  # noqa
+                pass
             s.open(ub, cur)
             rng = random.Random(zlib.crc32(cur.encode("utf-8")))     # positions depend on the final text only: replays reproduce them
             reqs = []
